@@ -130,6 +130,20 @@ def tasks(tier):
                    max_unknown=None, deadline=None, abort=True, handler=hd, handler_menu=["SLEEP"],
                    before_sleep="call", sleeper="call")
         out.append({"family": "delay-abort-predicate", "cfg": cfg, "entry": e, "bound": 1})
+    # time passes inside the strategy object's record_failure(), i.e. before the strategy is asked:
+    # remaining_s and the cap are those of the moment the strategy is consulted
+    for tb, dl, e in itertools.product(TABLES[:2], [6, 9], Q4):
+        cfg = dict(M=3, strat=tb, deadline=dl, alphabet=["ok", "x:T", "r:T"], strat_menu=[9, 1, 40],
+                   strat_free=True, strat_obj=True, rec_durs=[0, 2, 3], max_unknown=None, sleeper="call")
+        out.append({"family": "delay-slow-record", "cfg": cfg, "entry": e, "bound": 1})
+    # execute() through a Policy whose breaker is opened by the very failure that is deferred:
+    # next_sleep_s is still the computed delay
+    for tb, e in itertools.product(TABLES[:2], ["Policy.execute", "AsyncPolicy.execute", "Policy.call",
+                                                "RetryPolicy.execute"]):
+        cfg = dict(M=3, strat=tb, alphabet=["ok", "x:T", "r:T"], strat_menu=[1, 3], strat_free=True,
+                   max_unknown=None, handler="call", handler_menu=["DEFER", "SLEEP"], handler_free=True,
+                   breaker={"threshold": 1, "window": 8, "recovery": 16, "trip_on": ["T", "U", "P"]})
+        out.append({"family": "delay-deferred-trips-breaker", "cfg": cfg, "entry": e, "bound": 0})
     # time passes inside the sleep handler; an attempt timeout is configured
     for tb, at, e in itertools.product(TABLES[:2] + TABLES[4:], [None, 2], Q4):
         cfg = dict(M=3, strat=tb, deadline=6, alphabet=["ok", "x:T", "x:R+ra", "r:T"],
@@ -190,6 +204,12 @@ def monitor(w, cfg):
                 continue
             style = strategy_style(cfg, want_stub)
             remaining = a.remaining
+            recs = [r for r in a.seg if r[0] == "strategy_rec" and r[2] == "failure" and len(r) > 4
+                    and a.seg.index(r) < a.seg.index(s)]
+            if recs and cfg["deadline"] is not None:
+                # time that passed inside the strategy object's record_failure(): the strategy is
+                # consulted (and the delay capped) with what remains *then*
+                remaining = a.remaining - (recs[-1][4] - op.t1)
             if s[3] != a.i:
                 v.append(("c05.ctx-attempt", f"strategy saw attempt={s[3]}, true attempt {a.i}"))
             if s[4] != op.klass:
